@@ -364,7 +364,8 @@ def resolveFunction (function : String) : CM (UInt32 × UInt32) := do
     if let some (_, alias_) := s.imports.find? (fun p => p.1 == pre) then
       let (sd, sfx) := superDepth alias_
       if sd > s.ns.length then fail .superLimitReached
-      let name := joinNs (s.ns.take (s.ns.length - sd)) (alias_ ++ "." ++ sfx.getD suffix)
+      -- (repaired) the `super.` segments of the alias only walk the namespace up
+      let name := joinNs (s.ns.take (s.ns.length - sd)) (sfx.getD alias_ ++ "." ++ suffix)
       if let some r := lookupJump s name then return r
     fail .invalidJump
   | _ => fail .invalidJump
